@@ -33,13 +33,13 @@ func (l *apiLookup) Delete(*kapacitor.TaskMaster)     {}
 
 type apiDiag struct{}
 
-func (apiDiag) StartingTask(string)                              {}
-func (apiDiag) StartedTask(string)                               {}
-func (apiDiag) FinishedTask(string)                              {}
-func (apiDiag) Error(msg string, err error, ctx ...keyvalue.T)   {}
-func (apiDiag) Debug(string)                                     {}
-func (apiDiag) AlreadyMigrated(string, string)                   {}
-func (apiDiag) Migrated(string, string)                          {}
+func (apiDiag) StartingTask(string)                            {}
+func (apiDiag) StartedTask(string)                             {}
+func (apiDiag) FinishedTask(string)                            {}
+func (apiDiag) Error(msg string, err error, ctx ...keyvalue.T) {}
+func (apiDiag) Debug(string)                                   {}
+func (apiDiag) AlreadyMigrated(string, string)                 {}
+func (apiDiag) Migrated(string, string)                        {}
 
 type apiWorld struct {
 	store  *rt.BoltStore
@@ -160,4 +160,162 @@ func (w *apiWorld) apiStage(it item) rt.M {
 		}
 	}
 	return out
+}
+
+// ---------------------------------------------------------------------------
+// Histories on one id (the API path over TIME): what GET / list return must follow the
+// script that is in force NOW - after a template update pushed a new script into its tasks,
+// after a rejected template update was rolled back, after a task PATCH, after delete and
+// re-create of the same id.  Law per step and object: formatted(GET) and formatted(list)
+// parse to the same tree as raw(GET), and raw(GET) is the script in force.
+
+func treeDigest(script string) string {
+	n, e := parse(script)
+	if e != "" {
+		return "parse error: " + e
+	}
+	return digest(S(Canon(n, false, false)))
+}
+
+// observe: one object (kind "/tasks" | "/templates") as the API shows it now.
+func (w *apiWorld) observe(who, kind, id, inForce string) rt.M {
+	coll := kind[1:]
+	get := func(format string) string {
+		_, b := w.call("GET", kind+"/", httpd.BasePath+kind+"/"+id+"?script-format="+format, nil)
+		var v struct {
+			Script string `json:"script"`
+		}
+		_ = json.Unmarshal(b, &v)
+		return v.Script
+	}
+	raw := get("raw")
+	q := url.Values{"pattern": {id}, "fields": {"script"}, "script-format": {"formatted"}}
+	_, lb := w.call("GET", kind, httpd.BasePath+kind+"?"+q.Encode(), nil)
+	var lv map[string]json.RawMessage
+	_ = json.Unmarshal(lb, &lv)
+	var l []struct {
+		Script string `json:"script"`
+	}
+	_ = json.Unmarshal(lv[coll], &l)
+	lt := "not listed"
+	if len(l) == 1 {
+		lt = treeDigest(l[0].Script)
+	}
+	return rt.M{"who": who, "f": treeDigest(get("formatted")), "r": treeDigest(raw), "l": lt, "rawis": raw == inForce, "exp": treeDigest(inForce)}
+}
+
+// history: the steps on one template id, one task created from it and one plain task id.
+// it.Alt is another script of the item stream (same edge).
+func (w *apiWorld) history(it item) []any {
+	steps := []any{}
+	if len(it.Vars) > 0 || it.Alt == "" {
+		return steps
+	}
+	n := w.n.Add(1)
+	T, K, P := fmt.Sprintf("ht%d", n), fmt.Sprintf("hk%d", n), fmt.Sprintf("hp%d", n)
+	typ := client.StreamTask
+	if it.Edge == "batch" {
+		typ = client.BatchTask
+	}
+	dbrps := []client.DBRP{{Database: "db", RetentionPolicy: "rp"}}
+	A, B := it.Src, it.Alt
+	add := func(step string, code int, obs ...rt.M) {
+		os := []any{}
+		for _, o := range obs {
+			os = append(os, o)
+		}
+		steps = append(steps, rt.M{"step": step, "code": code, "obs": os})
+	}
+	js := func(v any) []byte { b, _ := json.Marshal(v); return b }
+	post := func(kind string, v any) int {
+		c, _ := w.call("POST", kind, httpd.BasePath+kind, js(v))
+		return c
+	}
+	patch := func(kind, id string, v any) int {
+		c, _ := w.call("PATCH", kind+"/", httpd.BasePath+kind+"/"+id, js(v))
+		return c
+	}
+	del := func(kind, id string) { w.call("DELETE", kind+"/", httpd.BasePath+kind+"/"+id, nil) }
+
+	// --- template and a task created from it
+	c := post("/templates", client.CreateTemplateOptions{ID: T, Type: typ, TICKscript: A})
+	add("create-template", c)
+	if c == http.StatusOK {
+		defer del("/templates", T)
+		c = post("/tasks", client.CreateTaskOptions{ID: K, TemplateID: T, DBRPs: dbrps, Status: client.Disabled})
+		if c != http.StatusOK {
+			add("create-task-from-template", c)
+		} else {
+			defer del("/tasks", K)
+			force := A
+			add("create-task-from-template", c, w.observe("task", "/tasks", K, force), w.observe("template", "/templates", T, force))
+			// the template update pushes the new script into its tasks
+			c = patch("/templates", T, client.UpdateTemplateOptions{TICKscript: B})
+			if c == http.StatusOK {
+				force = B
+			}
+			add("update-template", c, w.observe("task", "/tasks", K, force), w.observe("template", "/templates", T, force))
+			// a template update the server rejects (no such node) leaves everything as it is
+			c = patch("/templates", T, client.UpdateTemplateOptions{TICKscript: it.Edge + "\n    |noSuchNode()\n"})
+			add("rejected-template-update", c, w.observe("task", "/tasks", K, force), w.observe("template", "/templates", T, force))
+			// the script of a task that has a template is the template's, whatever a PATCH says
+			c = patch("/tasks", K, client.UpdateTaskOptions{TICKscript: A})
+			add("patch-templated-task", c, w.observe("task", "/tasks", K, force), w.observe("template", "/templates", T, force))
+		}
+	}
+	// --- every 25th history: an ENABLED task, and a template update that is rolled back because the
+	// task cannot be started with the new script (influxDBOut without an InfluxDB cluster)
+	if n%25 == 0 {
+		T2, K2 := fmt.Sprintf("hrt%d", n), fmt.Sprintf("hrk%d", n)
+		A0 := "stream\n    |from()\n        .measurement('a')\n    |log()\n"
+		A1 := "stream\n    |from()   .measurement('b')\n\n\n    |log()\n"
+		R0 := "stream\n    |from()\n        .measurement('c')\n    |influxDBOut()\n        .database('d')\n"
+		if c := post("/templates", client.CreateTemplateOptions{ID: T2, Type: client.StreamTask, TICKscript: A0}); c == http.StatusOK {
+			if c = post("/tasks", client.CreateTaskOptions{ID: K2, TemplateID: T2, DBRPs: dbrps, Status: client.Enabled}); c == http.StatusOK {
+				force2 := A0
+				add("enabled:create", c, w.observe("task", "/tasks", K2, force2))
+				c = patch("/templates", T2, client.UpdateTemplateOptions{TICKscript: A1})
+				if c == http.StatusOK {
+					force2 = A1
+				}
+				add("enabled:update-template", c, w.observe("task", "/tasks", K2, force2), w.observe("template", "/templates", T2, force2))
+				c = patch("/templates", T2, client.UpdateTemplateOptions{TICKscript: R0})
+				if c == http.StatusOK {
+					force2 = R0
+				}
+				add("enabled:rolled-back-template-update", c, w.observe("task", "/tasks", K2, force2), w.observe("template", "/templates", T2, force2))
+				patch("/tasks", K2, client.UpdateTaskOptions{Status: client.Disabled})
+				del("/tasks", K2)
+			} else {
+				add("enabled:create", c)
+			}
+			del("/templates", T2)
+		}
+	}
+	// --- a plain task: create, PATCH the script, delete, create the same id with the other script
+	c = post("/tasks", client.CreateTaskOptions{ID: P, Type: typ, TICKscript: A, DBRPs: dbrps, Status: client.Disabled})
+	if c != http.StatusOK {
+		add("create-task", c)
+		return steps
+	}
+	force := A
+	add("create-task", c, w.observe("plain", "/tasks", P, force))
+	c = patch("/tasks", P, client.UpdateTaskOptions{TICKscript: B})
+	if c == http.StatusOK {
+		force = B
+	}
+	add("patch-task", c, w.observe("plain", "/tasks", P, force))
+	del("/tasks", P)
+	other := A
+	if force == A {
+		other = B
+	}
+	c = post("/tasks", client.CreateTaskOptions{ID: P, Type: typ, TICKscript: other, DBRPs: dbrps, Status: client.Disabled})
+	if c == http.StatusOK {
+		add("recreate-same-id", c, w.observe("plain", "/tasks", P, other))
+		del("/tasks", P)
+	} else {
+		add("recreate-same-id", c)
+	}
+	return steps
 }
